@@ -2,6 +2,7 @@ import SvModel.Core.Tree
 import SvModel.Core.Peg
 import SvModel.Gen.Grammar
 import SvModel.Gen.Names
+import SvModel.Lemmas.Walker
 import SvModel.Core.Pp
 import SvModel.Gen.PpKinds
 /-!
@@ -91,6 +92,39 @@ def doParseM (start cap hex : String) : String :=
       s!"{prodNames.getD kv.1.1 "?"}:{kv.1.2.1}:{if kv.1.2.2 then 1 else 0}:{v}")
     let sorted := ents.toArray.qsort (· < ·)
     s!"{st.memo.keys.length} " ++ String.intercalate "," sorted.toList
+
+/-- canonical hash of the memo table after a parse: entries (production, position, in-directive flag, stored length + 1 | 0)
+    in lexicographic order. At a bounded capacity the surviving set depends on the exact insertion sequence (doubled
+    wrappers, re-evaluations), so this is a sharp observable of the memo traffic. -/
+def memoHash (m : Memo) : UInt64 :=
+  let ents : Array (Nat × Nat × Nat × Nat) := m.tbl.toList.toArray.map (fun (kv : MKey × MVal) =>
+    (kv.1.1, kv.1.2.1, (if kv.1.2.2 then 1 else 0), (match kv.2 with | some (_, l) => l + 1 | none => 0)))
+  let lt (a b : Nat × Nat × Nat × Nat) : Bool :=
+    a.1 < b.1 || (a.1 == b.1 && (a.2.1 < b.2.1 || (a.2.1 == b.2.1 && a.2.2.1 < b.2.2.1)))
+  (ents.qsort lt).foldl (fun h e => fnvStep (fnvStep (fnvStep (fnvStep h e.1) e.2.1) e.2.2.1) e.2.2.2) 14695981039346656037
+
+def doParseH (start cap hex : String) : String :=
+  match startOf start with
+  | none => "bad-start"
+  | some f =>
+    let inp := unhex hex
+    let st0 : PState := {}
+    let g : Grammar := { grammar with memoCap := capOf cap }
+    let e : PExpr := if start == "pp" then .allConsuming (.call f) else .call f
+    match eval g inp (fuelFor inp) e 0 {} st0.init with
+    | (.ok q _ ts, st) =>
+      s!"ok {q} {(leavesL ts).length} {(preL ts).length} {skelHashL 14695981039346656037 ts} {st.dir} {st.vers.length} m={memoHash st.memo}"
+    | (.err e, st) => s!"err {e} {st.dir} {st.vers.length} m={memoHash st.memo}"
+    | (.oof, _) => "oof"
+
+/-- does the preprocessor's parse of the text have the shape assumed by `C06_identity`? (`plain` / `not-plain` / `reject`) -/
+def doPlain (hex : String) : String :=
+  let inp := unhex hex
+  let st0 : PState := {}
+  match eval grammar inp (fuelFor inp) (.allConsuming (.call idx_preprocessor_text)) 0 {} st0.init with
+  | (.ok _ _ ts, _) => if plainTreeb ppKinds ts then "plain" else "not-plain"
+  | (.err _, _) => "reject"
+  | (.oof, _) => "oof"
 
 /-- insertion order of the memo keys (capacity unbounded keeps the whole queue) -/
 def doParseK (start cap hex : String) : String :=
@@ -279,6 +313,10 @@ def step (line : String) : String :=
   | ["parse", start, cap] => doParse false start cap ""
   | ["parsev", start, cap, hex] => doParse true start cap hex
   | ["parsev", start, cap] => doParse true start cap ""
+  | ["plain", hex] => doPlain hex
+  | ["plain"] => doPlain ""
+  | ["parseh", start, cap, hex] => doParseH start cap hex
+  | ["parseh", start, cap] => doParseH start cap ""
   | ["parsem", start, cap, hex] => doParseM start cap hex
   | ["parsek", start, cap, hex] => doParseK start cap hex
   | "c16" :: ws :: toks => doC16 ws toks
